@@ -36,7 +36,7 @@ type ErrSpec struct {
 // Case is one authorization response (or error) pushed through one delivery path, or (via=seq) a sequence of such
 // responses produced one after the other by ONE provider in one process.
 type Case struct {
-	Via          string   `json:"via"`    // http | url | form | autherror | tryerror | seq
+	Via          string   `json:"via"`    // http | url | form | autherror | tryerror | seq | ilv
 	Router       string   `json:"router"` // provider | legacy
 	Mode         string   `json:"mode"`   // "" (absent) | query | fragment | form_post
 	RT           string   `json:"response_type"`
@@ -48,7 +48,7 @@ type Case struct {
 
 	// via=http
 	AppType   string `json:"app_type,omitempty"`
-	ErrPath   string `json:"err_path,omitempty"` // none | no_login | cb_store_fail | cb_client_fail | bad_prompt | prompt_none | create_fail | unsupported_rt
+	ErrPath   string `json:"err_path,omitempty"` // none | no_login | cb_store_fail | cb_client_fail | bad_prompt | prompt_none | create_fail | unsupported_rt | no_scope
 	JWTAccess bool   `json:"jwt_access,omitempty"`
 
 	// direct calls
@@ -70,6 +70,11 @@ type Case struct {
 	BrokenWriter bool `json:"broken_writer,omitempty"` // the http.ResponseWriter of this step accepts Accept body bytes and fails from then on (user agent gone)
 	Accept       int  `json:"accept,omitempty"`
 	ErrRef       int  `json:"err_ref,omitempty"` // >0: the error answered is shared_errs[err_ref-1] of the sequence (the same value every time), not a fresh one
+
+	// a step of an interleaving (via=ilv): the response is produced in its own goroutine that is parked at the
+	// HoldAt-th gate call (0: runs through) while the next HoldFor steps are started and run until they finish or park
+	HoldAt  int `json:"hold_at,omitempty"`
+	HoldFor int `json:"hold_for,omitempty"`
 }
 
 // ---- generator ----------------------------------------------------------------------
@@ -87,8 +92,11 @@ var (
 )
 
 func genCase(t *rapid.T) Case {
-	if rapid.IntRange(0, 3).Draw(t, "shape") == 0 {
+	switch rapid.IntRange(0, 4).Draw(t, "shape") {
+	case 0:
 		return genSeq(t)
+	case 1:
+		return genIlv(t)
 	}
 	return genSingle(t, singleVias)
 }
@@ -165,7 +173,7 @@ func genSingle(t *rapid.T, vias []string) Case {
 		if c.URIKind == "https" {
 			c.AppType = rapid.SampledFrom([]string{"web", "user_agent", "native"}).Draw(t, "apptype")
 		}
-		c.ErrPath = rapid.SampledFrom([]string{"none", "none", "none", "none", "none", "none", "no_login", "cb_store_fail", "cb_client_fail", "bad_prompt", "prompt_none", "create_fail", "unsupported_rt"}).Draw(t, "errpath")
+		c.ErrPath = rapid.SampledFrom([]string{"none", "none", "none", "none", "none", "none", "no_login", "cb_store_fail", "cb_client_fail", "bad_prompt", "prompt_none", "create_fail", "unsupported_rt", "no_scope"}).Draw(t, "errpath")
 		c.JWTAccess = rapid.Bool().Draw(t, "jwtat")
 	case "url", "form":
 		c.Resp = rapid.SampledFrom([]string{"code", "token", "error"}).Draw(t, "resp")
@@ -453,6 +461,7 @@ type httpOut struct {
 	final   *vkit.Resp // the response that must carry the authorization response
 	stage   string     // authorize | callback
 	code    string     // code handed to the storage (journal)
+	codeOf  string     // interleaved flows: the auth request whose code must arrive
 	panicFP string
 }
 
@@ -518,17 +527,19 @@ func (w *brokenWriter) Write(p []byte) (int, error) {
 	return n, errors.New("write tcp: broken pipe")
 }
 
-// get issues one GET against the provider; accept >= 0: through a brokenWriter.
-func (e *env) get(path string, q url.Values, accept int) *vkit.Resp {
-	if accept < 0 {
-		return e.ag.Get(path, q, nil)
-	}
+// get issues one GET against the provider; accept >= 0: through a brokenWriter; g != nil: through a router built for this
+// request around the same provider whose Authorizer / Storage / auth requests report their getter calls to the gate g.
+func (e *env) get(path string, q url.Values, accept int, g *gate) *vkit.Resp {
 	target := path
 	if len(q) > 0 {
 		target += "?" + q.Encode()
 	}
 	r := httptest.NewRequest("GET", "http://"+e.sut.Host+target, nil)
 	r.Host = e.sut.Host
+	h := e.handler(g)
+	if accept < 0 {
+		return vkit.Serve(h, e.st, r)
+	}
 	w := &brokenWriter{hdr: http.Header{}, accept: accept}
 	resp := &vkit.Resp{Req: e.st.BeginRequest(), JournalAtWrite: -1}
 	func() {
@@ -538,7 +549,7 @@ func (e *env) get(path string, q url.Values, accept int) *vkit.Resp {
 				resp.Stack = string(debug.Stack())
 			}
 		}()
-		e.sut.Handler.ServeHTTP(w, r)
+		h.ServeHTTP(w, r)
 	}()
 	resp.Status, resp.Header, resp.Body = w.status, w.hdr, w.body
 	if resp.Status == 0 && resp.Panic == nil {
@@ -548,9 +559,20 @@ func (e *env) get(path string, q url.Values, accept int) *vkit.Resp {
 	return resp
 }
 
-// runHTTP drives authorize -> login -> callback for a client registered for this run; accept >= 0: every response of
-// the run is written to a brokenWriter.
-func runHTTP(e *env, c Case, mode string, accept int) *httpOut {
+// httpRun is one authorize -> login -> callback flow for a client registered for it, split into its two requests so
+// that an interleaving can run the first one ahead of time and the one that produces the judged response under a gate.
+type httpRun struct {
+	e      *env
+	c      Case
+	mode   string
+	accept int
+	cl     *vkit.ClientSpec
+	out    *httpOut
+	id     string // auth request the authorize request created
+	next   int    // 0: authorize, 1: callback, 2: finished
+}
+
+func newHTTPRun(e *env, c Case, mode string, accept int) *httpRun {
 	rtsReg := []string{"code", "id_token", "id_token token"}
 	if c.ErrPath == "unsupported_rt" {
 		rtsReg = nil
@@ -560,64 +582,94 @@ func runHTTP(e *env, c Case, mode string, accept int) *httpOut {
 			}
 		}
 	}
-	st := e.st
 	e.nClient++
 	cl := &vkit.ClientSpec{ID: fmt.Sprintf("client-%d", e.nClient), AppType: c.AppType, AuthMethod: "none", DevMode: c.URIKind != "https", GrantTypes: []string{vkit.GCode, vkit.GImpl},
 		ResponseTypes: rtsReg, RedirectURIs: []string{c.URI}, JWTAccessToken: c.JWTAccess}
-	// nothing runs between two requests: registering a client and changing the policy of the storage here is race-free
-	st.Clients[cl.ID] = cl
+	// no request is being served while a client is registered (the steps of an interleaving are registered before any of them starts)
+	e.st.Clients[cl.ID] = cl
+	return &httpRun{e: e, c: c, mode: mode, accept: accept, cl: cl, out: &httpOut{}}
+}
+
+// authorize sends the authorization request. The policy of the storage is read by CreateAuthRequest, i.e. before any
+// gate of this request; only one request runs at any time, so setting it right before the request is race-free.
+func (h *httpRun) authorize(g *gate) {
+	c, st, out := h.c, h.e.st, h.out
 	st.Policy.SessionState = c.SessionState
 	st.Policy.PromptNoneLoginError = c.ErrPath == "prompt_none"
 	st.SetFaults()
-	out := &httpOut{}
-
-	q := url.Values{"client_id": {cl.ID}, "redirect_uri": {c.URI}, "response_type": {c.RT}, "scope": {strings.Join(c.Scopes, " ")}, "nonce": {"n-1"}}
+	q := url.Values{"client_id": {h.cl.ID}, "redirect_uri": {c.URI}, "response_type": {c.RT}, "scope": {strings.Join(c.Scopes, " ")}, "nonce": {"n-1"}}
 	if c.State != "" {
 		q.Set("state", c.State)
 	}
-	if mode != "" {
-		q.Set("response_mode", mode)
+	if h.mode != "" {
+		q.Set("response_mode", h.mode)
 	}
 	switch c.ErrPath {
 	case "bad_prompt":
 		q.Set("prompt", "none login")
 	case "prompt_none":
 		q.Set("prompt", "none")
+	case "no_scope":
+		q.Del("scope")
 	case "create_fail":
 		st.SetFaults(vkit.Fault{Method: "CreateAuthRequest", Kind: "error"})
 	}
-	auth := e.get(e.sut.Paths["authorization"], q, accept)
+	h.next = 2
+	auth := h.e.get(h.e.sut.Paths["authorization"], q, h.accept, g)
 	out.final, out.stage = auth, "authorize"
 	if auth.Panic != nil {
 		out.panicFP = auth.PanicFrame()
-		return out
+		return
 	}
 	id, toLogin := vkit.LoginRequestID(auth)
 	if !toLogin {
-		return out
+		return
 	}
+	h.id, h.next = id, 1
 	if c.ErrPath != "no_login" {
 		st.Login(id, subject)
 	}
+}
+
+// callback sends the request the login UI redirects the user agent to.
+func (h *httpRun) callback(g *gate) {
+	c, st, out := h.c, h.e.st, h.out
 	switch c.ErrPath {
 	case "cb_store_fail":
 		st.SetFaults(vkit.Fault{Method: "SaveAuthCode", Kind: "error"}, vkit.Fault{Method: "DeleteAuthRequest", Kind: "error"})
 	case "cb_client_fail":
 		st.SetFaults(vkit.Fault{Method: "GetClientByClientID", Kind: "error"})
 	}
-	cb := e.get(e.sut.CallbackPath(), url.Values{"id": {id}}, accept)
-	st.SetFaults()
+	h.next = 2
+	cb := h.e.get(h.e.sut.CallbackPath(), url.Values{"id": {h.id}}, h.accept, g)
+	if g == nil {
+		st.SetFaults()
+	}
 	out.final, out.stage = cb, "callback"
 	if cb.Panic != nil {
 		out.panicFP = cb.PanicFrame()
-		return out
+		return
+	}
+	if g != nil {
+		// requests overlap: the journal's request numbers do not tell whose call it was; the code is looked up by the auth request (codeOf)
+		return
 	}
 	for _, je := range st.CallsOf(cb.Req) {
 		if je.Method == "SaveAuthCode" && len(je.Args) == 2 && !je.Fault {
 			out.code = je.Args[1]
 		}
 	}
-	return out
+}
+
+// runHTTP drives authorize -> login -> callback for a client registered for this run; accept >= 0: every response of
+// the run is written to a brokenWriter.
+func runHTTP(e *env, c Case, mode string, accept int) *httpOut {
+	h := newHTTPRun(e, c, mode, accept)
+	h.authorize(nil)
+	if h.next == 1 {
+		h.callback(nil)
+	}
+	return h.out
 }
 
 // delivered: what kind of answer is r with respect to the redirect URI?
@@ -663,7 +715,11 @@ func judgeHTTP(res *vkit.Result, e *env, c Case) {
 	if c.BrokenWriter {
 		accept = c.Accept
 	}
-	out := runHTTP(e, c, c.Mode, accept)
+	judgeHTTPOut(res, e, c, runHTTP(e, c, c.Mode, accept))
+}
+
+// judgeHTTPOut judges the response an HTTP flow ended with.
+func judgeHTTPOut(res *vkit.Result, e *env, c Case, out *httpOut) {
 	if out.panicFP != "" {
 		res.Fail("C11:panic@"+out.panicFP, "panic in %s: %v", out.stage, out.final.Panic)
 		return
@@ -712,11 +768,21 @@ func judgeHTTP(res *vkit.Result, e *env, c Case) {
 		}
 		switch c.RT {
 		case "code":
-			if out.code == "" {
+			if out.codeOf != "" {
+				// interleaved requests: the code is the one the storage holds for THIS auth request
+				id := out.codeOf
+				wants = append(wants, want{name: "code", verify: func(got string) string {
+					if owner, ok := e.st.CodeRequest(got); !ok || owner != id {
+						return fmt.Sprintf("%q is not a code the storage holds for auth request %s (it belongs to %q)", clip(got), id, owner)
+					}
+					return ""
+				}})
+			} else if out.code == "" {
 				res.Fail("C11:http:no-code-stored", "%s: no code was handed to the storage", j.where)
 				return
+			} else {
+				wants = append(wants, want{name: "code", val: out.code})
 			}
-			wants = append(wants, want{name: "code", val: out.code})
 			if c.SessionState != "" {
 				wants = append(wants, want{name: "session_state", val: c.SessionState})
 			}
@@ -805,19 +871,24 @@ type codeResponse struct {
 	SessionState string `schema:"session_state,omitempty"`
 }
 
-type errReq struct{ uri, rt, state, mode string }
+// errReq is the auth request of a direct AuthRequestError / TryErrorRedirect call; its getters report to the gate of
+// the step (nil outside interleavings).
+type errReq struct {
+	uri, rt, state, mode string
+	g                    *gate
+}
 
-func (e *errReq) GetRedirectURI() string             { return e.uri }
-func (e *errReq) GetResponseType() oidc.ResponseType { return oidc.ResponseType(e.rt) }
-func (e *errReq) GetState() string                   { return e.state }
-func (e *errReq) GetResponseMode() oidc.ResponseMode { return oidc.ResponseMode(e.mode) }
+func (e *errReq) GetRedirectURI() string             { e.g.hit("GetRedirectURI"); return e.uri }
+func (e *errReq) GetResponseType() oidc.ResponseType { e.g.hit("GetResponseType"); return oidc.ResponseType(e.rt) }
+func (e *errReq) GetState() string                   { e.g.hit("GetState"); return e.state }
+func (e *errReq) GetResponseMode() oidc.ResponseMode { e.g.hit("GetResponseMode"); return oidc.ResponseMode(e.mode) }
 
 type errReqSS struct {
 	*errReq
 	ss string
 }
 
-func (e errReqSS) GetSessionState() string { return e.ss }
+func (e errReqSS) GetSessionState() string { e.g.hit("GetSessionState"); return e.ss }
 
 // stdCtor maps the RFC 6749 / OIDC error codes to the library's typed constructors.
 var stdCtor = map[string]func() *oidc.Error{
@@ -861,9 +932,8 @@ func buildErrorSpec(sp ErrSpec) (error, string, string, bool) {
 	return oe, code, sp.Desc, true
 }
 
-func judgeDirect(res *vkit.Result, e *env, c Case) {
-	sut := e.sut
-	enc := sut.Provider.Encoder()
+func judgeDirect(res *vkit.Result, e *env, c Case, g *gate) {
+	enc := e.encoder(g)
 	sound, why := soundURI(c.URI)
 	isError := c.Resp == "error"
 	j := &judge{res: res, c: c, mode: c.Mode, isError: isError, sound: sound, where: fmt.Sprintf("%s(%s response, mode %q, type %q)", viaName[c.Via], c.Resp, c.Mode, c.RT)}
@@ -977,11 +1047,11 @@ func judgeDirect(res *vkit.Result, e *env, c Case) {
 			res.Grey = true
 			return
 		}
-		var ar op.ErrAuthRequest = &errReq{c.URI, c.RT, c.State, c.Mode}
+		var ar op.ErrAuthRequest = &errReq{c.URI, c.RT, c.State, c.Mode, g}
 		if c.SessionState != "" {
-			ar = errReqSS{&errReq{c.URI, c.RT, c.State, c.Mode}, c.SessionState}
+			ar = errReqSS{&errReq{c.URI, c.RT, c.State, c.Mode, g}, c.SessionState}
 		}
-		op.AuthRequestError(w, httptest.NewRequest("GET", "/authorize/callback", nil), ar, errVal, sut.Provider)
+		op.AuthRequestError(w, httptest.NewRequest("GET", "/authorize/callback", nil), ar, errVal, e.authorizer(g))
 		if c.BrokenWriter {
 			res.Grey = true
 			res.Label("grey:aborted-write", "aborted:autherror")
@@ -998,9 +1068,9 @@ func judgeDirect(res *vkit.Result, e *env, c Case) {
 			res.Grey = true
 			return
 		}
-		var ar op.ErrAuthRequest = &errReq{c.URI, c.RT, c.State, c.Mode}
+		var ar op.ErrAuthRequest = &errReq{c.URI, c.RT, c.State, c.Mode, g}
 		if c.SessionState != "" {
-			ar = errReqSS{&errReq{c.URI, c.RT, c.State, c.Mode}, c.SessionState}
+			ar = errReqSS{&errReq{c.URI, c.RT, c.State, c.Mode, g}, c.SessionState}
 		}
 		red, err := op.TryErrorRedirect(context.Background(), ar, errVal, enc, vkit.DiscardLogger())
 		if err != nil || red == nil {
@@ -1051,6 +1121,10 @@ func run(c Case) (res *vkit.Result) {
 		runSeq(res, c)
 		return res
 	}
+	if c.Via == "ilv" {
+		runIlv(res, c)
+		return res
+	}
 	runOne(res, newEnv(c.Router, nil), c)
 	return res
 }
@@ -1097,7 +1171,7 @@ func runSeq(res *vkit.Result, c Case) {
 					sub.Fail("C11:panic@"+vkit.FirstLibFrame(string(debug.Stack())), "panic: %v", p)
 				}
 			}()
-			if s.Via == "seq" {
+			if s.Via == "seq" || s.Via == "ilv" {
 				sub.Grey = true
 				return
 			}
@@ -1205,12 +1279,16 @@ func runOne(res *vkit.Result, e *env, c Case) {
 	case "http":
 		judgeHTTP(res, e, c)
 	case "url", "form", "autherror", "tryerror":
-		judgeDirect(res, e, c)
+		judgeDirect(res, e, c, nil)
 	default:
 		res.Grey = true
 		return
 	}
+	classify(res, c)
+}
 
+// classify adds the class labels, the non-triviality verdict and the distinctness key of one response.
+func classify(res *vkit.Result, c Case) {
 	values := []string{c.State, c.SessionState, c.Code, c.AccessToken, c.IDToken, c.ErrDesc, c.ErrCode}
 	if c.TokenType != "Bearer" {
 		values = append(values, c.TokenType)
@@ -1295,9 +1373,10 @@ var prop = vkit.Prop[Case]{
 		"redirect URI (https, http, loopback, IPv6, custom scheme incl. opaque; 0-4 pre-existing query pairs with repeated keys, '+', %20, escaped delimiters, bare keys; optional fragment; for AuthResponseFormPost also hostile strings). " +
 		"Decoding as a user agent: query = form-decoded RawQuery of the Location, fragment = text after '#' of the raw Location form-decoded once, form = golang.org/x/net/html parse tree compared with the fixed skeleton. " +
 		"Excluded from the value domain (counted as grey labels): invalid UTF-8; NUL / CR / LF in form_post values (HTML cannot carry them); registered URIs whose own query uses a response parameter name, contains ';' or bad escapes, userinfo; action equality for non-http(s) schemes (html/template's inert #ZgotmplZ accepted) and hostile URIs. " +
-		"One case in four is a SEQUENCE of 2-5 such responses (success and error, mixed modes / types / paths, auth requests with and without session state) produced one after the other by ONE provider in one process: some steps write to a ResponseWriter that accepts 0-700 body bytes and fails from then on (not judged: nothing arrives; a fixed closing form_post response follows), some error steps answer one of 0-2 long-lived error VALUES of the sequence (typed / JSON-decoded *oidc.Error, optionally wrapped, or plain) instead of a fresh one; every step is judged with the per-response oracle. " +
+		"One case in five is a SEQUENCE of 2-5 such responses (success and error, mixed modes / types / paths, auth requests with and without session state) produced one after the other by ONE provider in one process: some steps write to a ResponseWriter that accepts 0-700 body bytes and fails from then on (not judged: nothing arrives; a fixed closing form_post response follows), some error steps answer one of 0-2 long-lived error VALUES of the sequence (typed / JSON-decoded *oidc.Error, optionally wrapped, or plain) instead of a fresh one; every step is judged with the per-response oracle. " +
+		"One case in five is an INTERLEAVING of 2-3 responses on ONE provider (HTTP flows ending in success, interaction_required, or a validation error of the authorize endpoint (prompt, scope, response type, login_required from the storage); direct AuthRequestError / TryErrorRedirect / AuthResponseURL / AuthResponseFormPost; every second case: requests of the same kind with their own state / session_state / redirect URI): each response is produced in its own goroutine and every getter the library calls on the auth request (GetState, GetSessionState, GetResponseMode, GetRedirectURI, GetResponseType), Authorizer.Encoder() and Encoder.Encode is a gate of the harness; the generated schedule parks step i at its HoldAt-th gate call (0-10) while the next 1-2 steps run until they finish or park, then releases it; one goroutine runs at a time and every hand-over is awaited (deterministic, replays exactly); every response is judged with the per-response oracle (the code of an interleaved flow = the code the storage holds for ITS auth request). One error step in four answers a long-lived error VALUE of the case. " +
 		"Per response: each parameter of THIS response is recovered exactly once and unchanged, and no named response parameter the provider did not produce for it (code, state, session_state, tokens, error, error_description) arrives with a value. " +
-		"non-trivial = some value has a character outside [A-Za-z0-9_-] or the redirect URI has a query; distinct = (path, router, mode, type, response kind / error path, URI kind, query?, fragment?, set of character classes[, broken writer, shared error]); a sequence = the list of its steps' classes",
+		"non-trivial = some value has a character outside [A-Za-z0-9_-] or the redirect URI has a query; distinct = (path, router, mode, type, response kind / error path, URI kind, query?, fragment?, set of character classes[, broken writer, shared error]); a sequence = the list of its steps' classes; an interleaving = the list of its steps' classes and the gates they were held at",
 	Gen: genCase,
 	Run: run,
 }
